@@ -18,7 +18,7 @@ func newLimitedReader(r io.Reader, limit int64) *limitedReader {
 
 func (l *limitedReader) Read(p []byte) (n int, err error) {
 	n, err = l.r.Read(p)
-	if int64(n) > l.limit {
+	if l.limit > 0 && int64(n) > l.limit {
 		err = ErrLimitReached
 	}
 	return
